@@ -5,13 +5,13 @@ import core
 from core import tlc, tlc_must_pass, vh, ToolError, write_ndjson, read_ndjson, validate_trace
 
 
-def replay_behaviours(ctx, module, behaviours, vh_args=(), what="behaviour"):
+def replay_behaviours(ctx, binary, module, behaviours, vh_args=(), what="behaviour"):
     """spec -> impl: feed behaviours to `vh <module> replay`; every mismatch is a violation."""
     if not behaviours:
         raise ToolError("no behaviours generated for " + module)
     p = ctx.wpath(module + "-beh.ndjson")
     write_ndjson(p, behaviours)
-    rc, out = vh([module, "replay"] + list(vh_args), stdin_path=p)
+    rc, out = vh(binary, [module, "replay"] + list(vh_args), stdin_path=p)
     done = None
     for line in out.splitlines():
         o = json.loads(line)
@@ -62,11 +62,11 @@ def C13(ctx):
     beh += g2.printed("B")
     ctx.sample({"behaviour": beh[0]})
     ctx.sample({"behaviour": beh[-1]})
-    replay_behaviours(ctx, "locks", beh)
+    replay_behaviours(ctx, "vh_store", "locks", beh)
     distinct = len({json.dumps(b, sort_keys=True) for b in beh})
     # T: long random runs of the real code validated against the specification
     tp = ctx.wpath("locks-trace.ndjson")
-    vh(["locks", "record", "seed=%d" % ctx.seed, "runs=%d" % (10 if q else 100), "len=%d" % (200 if q else 400)],
+    vh("vh_store", ["locks", "record", "seed=%d" % ctx.seed, "runs=%d" % (10 if q else 100), "len=%d" % (200 if q else 400)],
        stdout_path=tp)
     evs = read_ndjson(tp)
     ctx.sample({"trace_event": evs[5]})
@@ -80,5 +80,13 @@ def C13(ctx):
 
 
 PROPS = {
-    "C13": ("model_checking", C13),
+    "C13": dict(fn=C13, level="model_checking", design_ref="5/C13",
+                technique="TLA+ spec SubstateLocks: TLC exhaustive check + all-behaviours replay into SubstateLocks<()> + trace validation of recorded lock streams",
+                text="TLC checks writer exclusivity and handle freshness on every reachable state of the lock-table "
+                     "specification (2 nodes x 2 keys); every behaviour of bounded length and seeded random long behaviours "
+                     "are replayed into the real SubstateLocks comparing lock results and is_locked/node_is_locked for every "
+                     "substate and node after every step; recorded random runs of the real code are validated against the "
+                     "specification's actions with all invariants evaluated in every state.",
+                note="Trusted: TLC, the harness projection (handle renumbering, key mapping). The kernel-level use of the lock "
+                     "table (open/close substate) is covered by ledger-level checks, not here."),
 }
